@@ -179,19 +179,19 @@ type dsCall struct {
 }
 
 type outcome struct {
-	w        *ipamkit.World
-	tr       *ipamkit.Tracker
-	calls    []dsCall
-	applied  string
-	log      []map[string]any
-	viol     []ipamkit.Violation
-	adds     int
-	addsOK   int
-	dels     int
-	delsOK   int
-	rollback int
-	stuckDel bool
-	seqCalls int    // datastore calls made by the generated sequence (faults are enumerated over these)
+	w         *ipamkit.World
+	tr        *ipamkit.Tracker
+	calls     []dsCall
+	applied   string
+	log       []map[string]any
+	viol      []ipamkit.Violation
+	adds      int
+	addsOK    int
+	dels      int
+	delsOK    int
+	rollback  int
+	stuckDel  bool
+	seqCalls  int    // datastore calls made by the generated sequence (faults are enumerated over these)
 	faultKind string // kind of the fault that took effect in this run ("" = none)
 }
 
@@ -315,7 +315,9 @@ func (sc *scenario) run(fp faultPlan) (*outcome, error) {
 		sort.Strings(out)
 		return out
 	}
-	bad := func(key, f string, a ...any) { o.viol = append(o.viol, ipamkit.Violation{Key: key, Msg: fmt.Sprintf(f, a...)}) }
+	bad := func(key, f string, a ...any) {
+		o.viol = append(o.viol, ipamkit.Violation{Key: key, Msg: fmt.Sprintf(f, a...)})
+	}
 	// leak keys carry the kind of datastore failure that preceded them, so that distinct causes get distinct identities
 	afterFault := func() string {
 		if o.faultKind == "" {
